@@ -40,7 +40,7 @@ func (g *Gen) pick(xs [][]string) []string { return xs[g.r.Intn(len(xs))] }
 func (g *Gen) Doc(max int) Doc {
 	d := Doc{{K: "root", P: 0, Sp: []string{}, Lo: []string{}, V: []string{}}}
 	type scope map[string][]string
-	var fill func(parent int, depth int, inscope scope)
+	var fill func(parent int, depth int, inscope scope, porder []string)
 	add := func(n Node) int {
 		if n.Sp == nil {
 			n.Sp = []string{}
@@ -54,7 +54,7 @@ func (g *Gen) Doc(max int) Doc {
 		d = append(d, n)
 		return len(d)
 	}
-	fill = func(parent int, depth int, inscope scope) {
+	fill = func(parent int, depth int, inscope scope, porder []string) {
 		nkids := g.r.Intn(4)
 		if depth == 0 {
 			nkids = 1 + g.r.Intn(3)
@@ -71,7 +71,8 @@ func (g *Gen) Doc(max int) Doc {
 				// ten namespace nodes - own and inherited - occur, with and without attributes)
 				prefixes := []string{"xml", "p", "q", "", "n1", "n2", "n3", "n4", "n5", "n6"}
 				burst := g.r.Intn(10) == 0
-				for _, p := range prefixes {
+				// inherited bindings keep the PARENT's order (the store copies the parent's list), new ones follow
+				for _, p := range porder {
 					if v, ok := inscope[p]; ok {
 						sc[p] = v
 						order = append(order, p)
@@ -109,7 +110,7 @@ func (g *Gen) Doc(max int) Doc {
 					used[key] = true
 					add(Node{K: "attr", P: e, Sp: sp, Lo: nm, V: val})
 				}
-				fill(e, depth+1, sc)
+				fill(e, depth+1, sc, order)
 			case k < 8:
 				// never two adjacent text nodes: the XPath data model has none
 				if last := d[len(d)-1]; last.K == "text" && last.P == parent {
@@ -127,7 +128,7 @@ func (g *Gen) Doc(max int) Doc {
 			}
 		}
 	}
-	fill(1, 0, scope{})
+	fill(1, 0, scope{}, nil)
 	return d
 }
 
